@@ -48,6 +48,26 @@ def _four(args):
     return out
 
 
+def _delta_from_profiles(seq):
+    """get_delta() against the mean-squared deviation of the implementation's own sigma profiles (w = 5, 6) from the global sigma"""
+    def f():
+        o = SP(seq)
+        n = len(seq)
+        q = [1 if c in 'KR' else -1 if c in 'DE' else 0 for c in seq]
+        p, m = q.count(1), q.count(-1)
+        sig = 0.0 if p + m == 0 else ((p - m) / n) ** 2 / ((p + m) / n)
+        tot = 0.0
+        for w in (5, 6):
+            k = n - w + 1
+            if k <= 0:
+                continue
+            prof = _rows(o.get_linear_sigma(w))[1]
+            off = (w - 1) // 2
+            tot += sum((prof[off + i] - sig) ** 2 for i in range(k)) / k
+        return fnum(o.get_delta()), tot / 2
+    return call(f)
+
+
 def _comp(args):
     seq, w, grps = args
     o = SP(seq)
@@ -92,6 +112,12 @@ def build(ctx):
         items = ['(Some (%s, %s))' % (qrow(v[0]), qrow(v[1])) if st == 'ok' else 'None' for st, v in rows]
         d['sample_row'] = rows[0][1][1][:12] if rows[0][0] == 'ok' else None
         cases.append(Case('(%s, %s, %s)' % (cstr(s), cnat(w), clist(items)), d, key=(s, w), nontrivial=2 <= w <= len(s)))
+    # delta is the mean (w = 5, 6) of the mean-squared deviations of the sigma profile from the global sigma
+    dseqs = [gen_seq.spell(rng, p) for p in pats if 5 <= len(p) <= 6][:: ctx.pick(3, 1)] + [x for x in seqs if len(x) >= 5]
+    for x, (st, v) in zip(dseqs, pmap(_delta_from_profiles, dseqs, chunk=16)):
+        if st != 'ok' or abs(v[0] - v[1]) > 1e-9:
+            ctx.direct_failures.append({'sequence': x, 'why': 'get_delta() differs from the w = 5, 6 sigma-profile deviations', 'get_delta_vs_profiles': [st, v]})
+    ctx.notes['delta_vs_profiles'] = len(dseqs)
     # compositions
     cjobs = []
     for s in seqs[:: ctx.pick(3, 2)]:
